@@ -389,7 +389,7 @@ func c03Random(e *core.Env, rep *core.Report) {
 		} else {
 			rep.Count("random_judged_not_convertible", 1)
 		}
-		if !got && strings.Contains(cr.Gen.Stderr, "Goverter cannot generate converters when there are compile errors") {
+		if !got && strings.Contains(strings.ToLower(cr.Gen.Stderr), "compile error") {
 			// the generated INPUT does not compile: a bug of the generator, not a verdict about goverter
 			rep.Count("random_inputs_not_compiling", 1)
 			continue
